@@ -8,10 +8,10 @@ Local Open Scope float_scope.
 (* oracle table: (nu, x, value); nu = -1 encodes Gamma.  Lookup tolerates 1e-12 relative
    difference in the argument; a missing entry yields NaN (counted as a divergence). *)
 Definition otable := list (float * float * float).
-Fixpoint olookup (t : otable) (nu x : float) : float :=
+Fixpoint olookup (ktol : float) (t : otable) (nu x : float) : float :=
   match t with
   | [] => nan
-  | (n, k, v) :: r => if (n =? nu) && fclose 0x1p-38 zero k x then v else olookup r nu x
+  | (n, k, v) :: r => if fclose 0x1p-38 zero n nu && fclose ktol zero k x then v else olookup ktol r nu x
   end.
 
 Definition f32 (x : float) : float :=
@@ -20,13 +20,14 @@ Definition f32 (x : float) : float :=
   let c := x * 0x1.0000002p+29 in
   let r := c - (c - x) in if is_nan r || is_infinity r then x else r.
 
-Definition FOps (t : otable) : NumOps float := {|
+Definition FOpsK (ktol : float) (t : otable) : NumOps float := {|
   nadd := add; nsub := sub; nmul := mul; ndiv := div; nopp := opp; nsqrt := sqrt; nabs := abs;
   nofZ := fZ; nleb := leb; nltb := ltb; neqb := eqb;
   npow := fpow; nexp := fexp; nln := fln; nlog10 := flog10; ncos := fcos; nsin := fsin;
   natan2 := fatan2; npi := fpi;
-  ngamma := fun x => olookup t (-1) x;  nkv := fun nu x => olookup t nu x;
+  ngamma := fun x => olookup ktol t (-1) x;  nkv := fun nu x => olookup ktol t nu x;
   nround := fround_he; nfloor := ffloor; ntoZ := f2Z; nf32 := f32 |}.
+Definition FOps (t : otable) : NumOps float := FOpsK 0x1p-38 t.
 
 Definition fcloseb := fclose.
 Fixpoint all_close (tol scale : float) (a b : list float) : bool :=
